@@ -6,6 +6,10 @@
              | 2 d                                                                            (Tick)
              | 3 rows                                                                         (Restart)
              | 4 rows                      (Kill: rows of a copy of the store files, taken while open)
+             | 6 ...as 1...                (Alloc while ANOTHER connection holds the store's write lock: the
+                                            model admits an error answer with unchanged rows, or -- if the
+                                            write went through -- an ordinary step; a grant without its
+                                            row fails C10.2 / C01.4)
              | 5 ...as 1...                (Alloc whose reply is produced but never reaches the client:
                                             same step, but the grant is not logged as held)
      via    := 0 Pool::allocate_address | 1 handle_pkt(DISCOVER) | 2 handle_pkt(REQUEST)
@@ -69,13 +73,13 @@ Definition tok_answer (ts : list N) : option (ianswer * list N) :=
   | _ => None
   end.
 
-Record ialloc := { i_via : N; i_lost : bool; i_op : op; i_tlo : N; i_thi : N; i_ans : ianswer; i_opt51 : option N; i_rows : list row }.
+Record ialloc := { i_via : N; i_lost : bool; i_locked : bool; i_op : op; i_tlo : N; i_thi : N; i_ans : ianswer; i_opt51 : option N; i_rows : list row }.
 Inductive ievent := IAlloc (a : ialloc) | ITick (d : N) | IRestart (rows : list row) | IKill (rows : list row).
 
 Definition tok_event (ts : list N) : option (ievent * list N) :=
   match ts with
   | kind :: via :: _cid :: _rq :: _alt :: r =>
-      if negb ((kind =? 1) || (kind =? 5)) then
+      if negb ((kind =? 1) || (kind =? 5) || (kind =? 6)) then
         match ts with
         | 2 :: d :: r => Some (ITick d, r)
         | 3 :: r => match tok_rows r with Some (rows, r') => Some (IRestart rows, r') | None => None end
@@ -95,7 +99,7 @@ Definition tok_event (ts : list N) : option (ievent * list N) :=
               | Some (o51, r5) =>
                 match tok_rows r5 with
                 | Some (rows, r6) =>
-                    Some (IAlloc {| i_via := via; i_lost := kind =? 5;
+                    Some (IAlloc {| i_via := via; i_lost := kind =? 5; i_locked := kind =? 6;
                                     i_op := {| o_client := c; o_req := req; o_pool := pool; o_min := tmin; o_max := tmax |};
                                     i_tlo := tlo; i_thi := thi; i_ans := ans; i_opt51 := o51; i_rows := rows |}, r6)
                 | None => None
@@ -198,6 +202,7 @@ Definition pred_C01 (prev : db) (log : list grant) (a : ialloc) : N :=
   | IGranted ip _ _ =>
       if other_holds log [] c ip (i_thi a) then 1
       else if existsb (fun r => (r_addr r =? ip) && negb (mine c r) && (i_thi a <? r_expiry r)) prev then 2
+      else if negb (existsb (fun r => (r_addr r =? ip) && mine c r && (i_tlo a <=? r_start r)) (i_rows a)) then 4
       else 0
   | _ => 0
   end.
@@ -219,7 +224,7 @@ Definition pred_C09 (prev : db) (a : ialloc) : N :=
       else if existsb (fun x => negb (existsb (fun r => (r_addr r =? x) && negb (mine c r) && (i_tlo a <=? r_expiry r)) prev))
                       (o_pool o) then 3
       else 0
-  | IErr _ => if nonempty then 1 else 0
+  | IErr _ => if nonempty && negb (i_locked a) then 1 else 0     (* store locked by another connection: a write error is the right answer *)
   end.
 
 Definition pred_C10 (a : ialloc) : N :=
@@ -296,6 +301,11 @@ Fixpoint fold_events (which : N) (s : fstate) (es : list ievent) : list N :=
       else
       let p := pred_of which s a in
       if negb (p =? 0) then v_viol p
+      else
+      if i_locked a && (match i_ans a with IErr 3 => true | _ => false end) && rows_same (f_prev s) (i_rows a)
+      then (* the write could not be made (another connection holds the lock): an error, nothing stored *)
+        fold_events which {| f_prev := f_prev s; f_log := f_log s; f_now := i_thi a; f_idx := f_idx s + 1;
+                             f_mask := f_mask s; f_diff := f_diff s |} es'
       else
       let '(code, ans) := model_step (f_prev s) a in
       let log' := if i_lost a then f_log s else
